@@ -11,6 +11,9 @@ public:
 	using Index		= typename Container::Index;
 
 	template <typename, Long>
+	friend class StaticArrayT;
+
+	template <typename, Long>
 	friend class DynamicArrayT;
 
 private:
@@ -53,6 +56,9 @@ public:
 	using Container = TContainer;
 	using Item		= typename Container::Item;
 	using Index		= typename Container::Index;
+
+	template <typename, Long>
+	friend class StaticArrayT;
 
 	template <typename, Long>
 	friend class DynamicArrayT;
